@@ -252,12 +252,18 @@ CLAIMS['C15'] = {
     'technique': 'Lean 4 proof of change_tree against the upper invariant with exact accounting of hidden frames (from which "never allocated from" follows for every history) + theorems about the tree steps + change-heavy sequential differential',
 }
 CLAIMS['C21'] = {
-    'text': ('Theorems solo_terminates / get_solo_terminates / put_solo_terminates / drain_solo_terminates / solo_step_bound_upd: from every '
-             'intermediate thread state and every memory, a call of the model that runs alone finishes (programs are finite trees of accesses; the '
-             'only waiting loop has a retry budget) and an update loop needs at most two further accesses.' + PART + 'an explicit uniform numeric step '
-             'bound is measured by freeze experiments on the real threads, not proved.'),
+    'text': ('Theorems solo_terminates (+ per call): from every intermediate thread state and every memory, a call of the model that runs alone finishes '
+             '(programs are finite trees of accesses; the only waiting loop has a retry budget). Theorems get_within / put_within / drain_within / '
+             'change_tree_within / api_within: an EXPLICIT UNIFORM BOUND - every path of every public call (get on every path, put incl. the bounded spin wait, drain, '
+             'change_tree, stats, tree_stats, stats_at, is_free) performs at most getB c / putB c / ... / apiB c atomic accesses, numbers computed from the configuration '
+             'alone (geometry, trees, slots, retry constant; 37346 for the default geometry with 4 trees and 6 slots), for every argument and every value a load may return '
+             '(all loops of bitfield.rs, lower.rs, trees.rs, local.rs, llfree.rs bounded by induction). bound_kept_under_interference: a step of the thread '
+             'under arbitrary interference keeps the bound (a failed compare-exchange inside try_update does not lower it but never raises it). '
+             'frozen_completion / api_frozen_completion: after ANY schedule of ANY number of threads each inside a public call, from ANY memory, freezing all threads '
+             'but one lets that thread finish within the bound of its call. The step counts measured in the freeze experiments on the real threads are compared '
+             'with apiB by the model driver.'),
     'note': TB,
-    'technique': 'Lean 4 termination theorem over the interleaving semantics + freeze experiments under the deterministic scheduler',
+    'technique': 'Lean 4 proof of an explicit step bound for every public call (inductive predicate over program trees, preserved under interference) + termination theorem + freeze experiments under the deterministic scheduler checked against the proved bound',
 }
 
 CLAIMS['C18'] = {
